@@ -278,7 +278,6 @@ Theorem created_group_passes :
   forall (H : list N -> list N) txs rate G L e,
     (forall a b, length (H a) = length (H b)) ->
     create_group H txs rate = inr G ->
-    last_next_empty txs = true ->
     Forall (fun t => signature t = None) txs ->
     (0 <= rate)%Z -> (101 * rate * Z.of_nat (length txs) < 2 ^ 63)%Z ->
     (Z.of_nat (length txs) <= max_group)%Z ->
@@ -289,10 +288,10 @@ Theorem created_group_passes :
     ((head_fee L >? e_maxfee e)%Z && (e_maxfee e >? 0)%Z && is_fork (e_height e) (e_block e) = false) ->
     check_group H e L = EOk.
 Proof.
-  intros H txs rate G L e Hlen Cr Ln Uns Hr Bd Hn E Sm Em Cb Pa Th.
+  intros H txs rate G L e Hlen Cr Uns Hr Bd Hn E Sm Em Cb Pa Th.
   destruct (created_fee_sufficient H txs rate G L Hlen Cr Uns Hr Bd E Sm) as (tot & Sf & Le).
   destruct (create_group_spec H _ _ _ Cr) as (_ & _ & LenG & _).
-  apply (created_group_checks_partial H txs rate G L e tot); try assumption.
+  apply (created_group_checks H txs rate G L e tot); try assumption.
   - rewrite LenG. exact Hn.
   - rewrite Em. exact Sf.
 Qed.
